@@ -8,7 +8,7 @@ class Built(object):
     pass
 
 
-def build(model, ranks=None, plain=False, default_resource_ids=False):
+def build(model, ranks=None, plain=False, default_resource_ids=False, share_id_objects=False):
     """Create a fresh project.  ``ranks``: {id: int} hash ranks of tasks/components.
 
     plain=True uses the unmodified pDESy classes (id()-based hashes, no observers).
@@ -81,6 +81,19 @@ def build(model, ranks=None, plain=False, default_resource_ids=False):
     for mj in model.get("teams", []):
         workers = []
         for wj in mj.get("workers", []):
+            if model.get("assign_style"):
+                # the idiom of the library's own tests: construct with defaults, then fill the skill map item by item
+                w_ = M.bw.BaseWorker(wj.get("name", wj["id"]), ID=(None if default_resource_ids else wj["id"]),
+                                     cost_per_time=wj.get("cost", 0.0), solo_working=bool(wj.get("solo", False)),
+                                     absence_time_list=list(wj.get("abs", [])))
+                for k_, v_ in wj.get("skills", {}).items():
+                    w_.workamount_skill_mean_map[k_] = v_
+                w_.facility_skill_map = dict(wj.get("fskills", {}))
+                w_.workamount_skill_sd_map = dict(wj.get("sd", {}))
+                if wj.get("mainwp") is not None:
+                    w_.main_workplace_id = "".join(list(wj["mainwp"]))
+                workers.append(w_)
+                continue
             workers.append(
                 M.bw.BaseWorker(
                     name=wj.get("name", wj["id"]),
@@ -97,8 +110,12 @@ def build(model, ranks=None, plain=False, default_resource_ids=False):
                     quality_skill_sd_map={},
                 )
             )
-        tm = M.btm.BaseTeam(name=mj.get("name", mj["id"]), ID=mj["id"], worker_list=workers)
-        tm.extend_targeted_task_list([tasks[k] for k in mj.get("targets", [])])
+        if mj.get("ctor_targets"):
+            # targets handed to the constructor: registered on the team side only (task.allocated_team_list stays empty)
+            tm = M.btm.BaseTeam(name=mj.get("name", mj["id"]), ID=mj["id"], worker_list=workers,
+                                targeted_task_list=[tasks[k] for k in mj.get("targets", [])])
+        else:
+            tm = M.btm.BaseTeam(name=mj.get("name", mj["id"]), ID=mj["id"], worker_list=workers)
         teams.append(tm)
 
     wps = []
@@ -119,8 +136,24 @@ def build(model, ranks=None, plain=False, default_resource_ids=False):
         wp = M.bwp.BaseWorkplace(
             name=pj.get("name", pj["id"]), ID=pj["id"], facility_list=facs, max_space_size=pj.get("cap", 1.0)
         )
-        wp.extend_targeted_task_list([tasks[k] for k in pj.get("targets", [])])
         wps.append(wp)
+    # registration of targets: in the order the model asks for (default: teams then workplaces, each in list order);
+    # the order decides the order of task.allocated_team_list / allocated_workplace_list
+    reg = model.get("reg_order") or ([["team", i] for i in range(len(teams))] + [["wp", i] for i in range(len(wps))])
+    for kind_, i_ in reg:
+        if kind_ == "team":
+            mj = model["teams"][i_]
+            if not mj.get("ctor_targets"):
+                teams[i_].extend_targeted_task_list([tasks[k] for k in mj.get("targets", [])])
+        else:
+            wps[i_].extend_targeted_task_list([tasks[k] for k in model["wps"][i_].get("targets", [])])
+    if share_id_objects:
+        # main_workplace_id is the very same str object as the workplace's ID (as in `main_workplace_id=wp.ID`)
+        byid = {wp_.ID: wp_.ID for wp_ in wps}
+        for tm_ in teams:
+            for w_ in tm_.worker_list:
+                if w_.main_workplace_id in byid:
+                    w_.main_workplace_id = byid[w_.main_workplace_id]
     for i, pj in enumerate(model.get("wps", [])):
         if pj.get("inputs"):
             wps[i].extend_input_workplace_list([wps[k] for k in pj["inputs"]])
